@@ -39,7 +39,12 @@ func (m *Mutex) Unlock() {
 	vrt.Wake(uintptr(unsafe.Pointer(m)))
 }
 
-type RWMutex struct{ mu sync.RWMutex }
+// RWMutex with the writer preference of the real one: once a goroutine is waiting in Lock, new
+// RLock calls wait behind it (so a recursive read lock with a writer in between deadlocks, as in Go).
+type RWMutex struct {
+	mu    sync.RWMutex
+	wwait int // goroutines waiting in Lock
+}
 
 func (m *RWMutex) Lock() {
 	if !vrt.Active() {
@@ -49,7 +54,22 @@ func (m *RWMutex) Lock() {
 		m.mu.Lock()
 		return
 	}
-	vrt.Block(uintptr(unsafe.Pointer(m)), "RWMutex.Lock", m.mu.TryLock)
+	reg := false
+	defer func() {
+		if reg {
+			m.wwait--
+		}
+	}()
+	vrt.Block(uintptr(unsafe.Pointer(m)), "RWMutex.Lock", func() bool {
+		if m.mu.TryLock() {
+			return true
+		}
+		if !reg {
+			reg = true
+			m.wwait++
+		}
+		return false
+	})
 }
 func (m *RWMutex) Unlock() {
 	if vrt.Aborting() {
@@ -67,7 +87,7 @@ func (m *RWMutex) RLock() {
 		m.mu.RLock()
 		return
 	}
-	vrt.Block(uintptr(unsafe.Pointer(m)), "RWMutex.RLock", m.mu.TryRLock)
+	vrt.Block(uintptr(unsafe.Pointer(m)), "RWMutex.RLock", func() bool { return m.wwait == 0 && m.mu.TryRLock() })
 }
 func (m *RWMutex) RUnlock() {
 	if vrt.Aborting() {
@@ -89,7 +109,7 @@ func (m *RWMutex) TryRLock() bool {
 		return true
 	}
 	vrt.Point("RWMutex.TryRLock")
-	return m.mu.TryRLock()
+	return m.wwait == 0 && m.mu.TryRLock()
 }
 func (m *RWMutex) RLocker() Locker { return (*rlocker)(m) }
 
